@@ -469,4 +469,5 @@ pub fn run_checksum(out: &mut Out, thorough: bool, rng: &mut Rng) {
 pub fn run(out: &mut Out, thorough: bool, seed: u64) {
     let mut rng = Rng(seed ^ 0xC10);
     run_checksum(out, thorough, &mut rng);
+    crate::c10b::run_roundtrip(out, thorough, &mut rng);
 }
